@@ -1,6 +1,6 @@
 # Edited by hand as coverage grows; consumed by mkmanifest.py.
 NOTYET = "not claimed in this revision: the functions this property depends on are not yet under contract (work in progress, see DESIGN.md section 9)"
-for _p in ["C02","C03","C04","C06","C08","C11","C13","C14","C15","C16","C18","C19","C20"]:
+for _p in ["C02","C03","C04","C06","C08","C11","C13","C14","C16","C18","C19","C20"]:
     na(_p, NOTYET)
 na("C12", "tree equality across archive/tar, compress/gzip and the OS has no contract-level statement within reach of a function-modular verifier; the oras-go code in between is almost entirely calls into those libraries (DESIGN.md section 9, C12)")
 
@@ -31,3 +31,8 @@ claim("C10",
   "Publication-discipline obligations only (the crash-point quantifier has no contract-level counterpart): in oci.Store.delete the blob is removed only after the graph entry was removed and, when a tag was dropped and AutoSaveIndex is on, only after the index without it was saved. (Further discipline obligations on Storage.Push/ingest and writeIndexFile are added as they come under contract.)",
   "Crash points are NOT enumerated; POSIX rename atomicity and durability of completed calls are assumed; saveIndex and Storage.Delete are trusted contracts in this revision.",
   "DESIGN.md section 9 C10")
+
+claim("C15",
+  "Unbounded proof on the real listing code: parseLink takes exactly the text between '<' and the first '>' and never indexes out of range, an absent Link header yields errNoLink and nothing else does; limitReader/limitSize use n or the default (exact comparison); filterReferrers is an exact order-preserving filter (identity for an empty type); isReferrersFilterApplied is exact; the tag page loop sends `last` only on the first request, follows the returned link, stops with nil exactly on errNoLink and returns any other error unchanged; a tag page calls the callback exactly once with the decoded list, returns its error unchanged, decodes only through the metadata limit and sends n/last exactly when configured.",
+  "Assumed: contracts of net/http, net/url, strings.Split/IndexByte, io.LimitReader, encoding/json (decoding writes only through its target; a truncated document failing to decode is json's business), Repository.do (trusted), user callbacks do not touch the response object (explicit assumption). Referrers API pages and the catalog listing follow the same pattern and are not yet under contract in this revision.",
+  "DESIGN.md section 9 C15")
